@@ -21,7 +21,8 @@ REQUIRED_WITNESSES = []
 BUDGET_S = {"quick": 900, "thorough": 3600}
 
 CONTRACTS = ["geometric_names_all_enabled", "intensity_names_all_enabled", "data_args_reach_their_place_a", "data_args_reach_their_place_b", "trainer_args_reach_their_place_a",
-             "trainer_args_reach_their_place_b", "trainer_args_reach_their_place_c", "trainer_args_reach_their_place_d", "backbone_dict_reaches_its_place_a", "normalisation_is_idempotent"]
+             "trainer_args_reach_their_place_b", "trainer_args_reach_their_place_c", "trainer_args_reach_their_place_d", "backbone_dict_reaches_its_place_a", "normalisation_is_idempotent",
+             "backbone_presets_do_not_share_state", "head_presets_do_not_share_state"]
 
 
 def bounds(tier):
@@ -112,6 +113,8 @@ def _concrete(cfg, rep):
     d0 = OmegaConf.to_container(OmegaConf.structured(DataConfig(train_labels_path="a.slp", val_labels_path="b.slp")))
     t0 = OmegaConf.to_container(OmegaConf.structured(TrainerConfig()))
     checks.append(("data-defaults-equal-schema-defaults", OmegaConf.to_container(c.data_config) == d0))
+    from props import c20_contracts as CC_
+    checks.append(("builder-defaults-are-fresh-objects-on-every-call", CC_.defaults_do_not_share_state(1) and CC_.defaults_do_not_share_state(7)))
     # trainer options that are builder arguments carry the builder's own documented defaults (batch_size=4, max_epochs=100, ...);
     # every option that is NOT a builder argument must equal the schema default
     owned = ("seed", "max_epochs", "early_stopping", "model_ckpt", "lr_scheduler", "enable_progress_bar", "train_data_loader", "val_data_loader", "optimizer", "optimizer_name",
